@@ -54,6 +54,13 @@ let () = iter_lines (fun line ->
            let (r, st') = zck_close h_stub h !st in
            st := st';
            Buffer.add_string b (Printf.sprintf " q=%d!%s" (if r then 1 else 0) (err ()))
+         | 'M' ->
+           (* pairing with a second file: the read path never looks at the valid marks it sets, so the
+              reader state of the model is untouched; only whether the other file opens is reported *)
+           let other = bytes_of_string (string_of_hex (String.sub o 1 (String.length o - 1))) in
+           (match parse_impl h_stub no_pins other with
+            | POk _ -> Buffer.add_string b " M=11"
+            | _ -> Buffer.add_string b " M=noopen")
          | 'g' | 'c' | 'G' | 'P' ->
            let body = String.sub o 1 (String.length o - 1) in
            let (k, sz) = match String.split_on_char ':' body with
